@@ -1653,3 +1653,14 @@ M2("c15-encoder-loses-a-frame", "C15", "R12.decoder-reaches-every-depth-the-enco
     {"file": "serdes.py", "old": "TypeTag.LIST, [self._wrap(v, self.dispatcher) for v in obj]", "new": "TypeTag.LIST, [self.dispatcher.encode(v) for v in obj]"}])
 M("c12-interrupted-attempt-reported-as-first", "C12", "R1.attempt-number", "operation/step.py",
   "        retry_decision: RetryDecision = retry_strategy(error, retry_attempt + 1)", "        retry_decision: RetryDecision = retry_strategy(error, 1)")
+M("c10-entry-query-removed", "C10", "R8.recorded-outcome-stops-an-orphan-too", "operation/base.py",
+  "        if state is not None:\n            state.raise_if_in_orphaned_branch(self.operation_identifier.parent_id)\n", "", desc="fix 0ae22a8 reverted: operations answered from their record do not ask")
+M("c16-entry-query-stops-at-completed-context", "C16", "R2.entry-query-lets-a-retraversal-pass", "state.py",
+  "            if recorded is None or recorded.status is not OperationStatus.SUCCEEDED:\n                break\n            current = recorded.parent_id\n",
+  "            break\n", desc="the entry query judges the direct parent even when that is a context recorded SUCCEEDED: re-traversals are rejected")
+M("c10-entry-query-looks-through-open-contexts", "C10", "R9.entry-query-stops-an-orphaned-branch", "state.py",
+  "            if recorded is None or recorded.status is not OperationStatus.SUCCEEDED:\n                break\n            current = recorded.parent_id\n",
+  "            if recorded is None:\n                break\n            current = recorded.parent_id\n", desc="the walk skips every recorded context: an orphaned branch is never judged")
+M("c10-orphan-handler-counts-the-branch", "C10", "R5.orphan-handler-is-inert", "concurrency/executor.py",
+  "            self._fatal_exception = e\n            self._completion_event.set()\n            return\n        except TimedSuspendExecution as tse:",
+  "            self.counters.fail_task()\n            self._fatal_exception = e\n            self._completion_event.set()\n            return\n        except TimedSuspendExecution as tse:")
